@@ -198,6 +198,15 @@ type Outer struct {
 	Low  []int  `json:"Tag"`
 }
 
+// a struct type that can marshal itself but not unmarshal itself: it has no JSON form of its
+// own that could be read back, the serialiser has to write it field by field
+type OnlyM struct {
+	A int
+	S []string
+}
+
+func (o OnlyM) MarshalJSON() ([]byte, error) { return []byte(`"only-m"`), nil }
+
 // a comparable struct used as a map key type (keys are written as plain JSON)
 type KS struct {
 	A int
@@ -208,7 +217,7 @@ var fixedStructs = []struct {
 	rt  reflect.Type
 	reg bool
 }{{reflect.TypeOf(Empty{}), true}, {reflect.TypeOf(Node{}), true}, {reflect.TypeOf(Unreg{}), false}, {reflect.TypeOf(Rec{}), true},
-	{reflect.TypeOf(Holder{}), true}, {reflect.TypeOf(Inner{}), true}, {reflect.TypeOf(Outer{}), true}, {reflect.TypeOf(KS{}), true}}
+	{reflect.TypeOf(Holder{}), true}, {reflect.TypeOf(Inner{}), true}, {reflect.TypeOf(Outer{}), true}, {reflect.TypeOf(KS{}), true}, {reflect.TypeOf(OnlyM{}), true}}
 
 // container types registered under a name (so that they may be element types)
 var regContainers = []struct {
@@ -264,6 +273,7 @@ func init() {
 	must(compose.RegisterSerializableType[Inner]("c12_s1005"))
 	must(compose.RegisterSerializableType[Outer]("c12_s1006"))
 	must(compose.RegisterSerializableType[KS]("c12_s1007"))
+	must(compose.RegisterSerializableType[OnlyM]("c12_s1008"))
 	must(compose.RegisterSerializableType[NLvl]("c12_n10"))
 	must(compose.RegisterSerializableType[NTk]("c12_n11"))
 	must(compose.RegisterSerializableType[alt.NInt]("c12_n12"))
@@ -1143,6 +1153,7 @@ type stats struct {
 	nilPtr, innerNil, iface      bool
 	containers, structs, nilCont bool
 	arrays, defConts             bool
+	keyKinds                     map[string]bool
 }
 
 func (w *world) stat(t *Ty, v *V, depth int, st *stats) {
@@ -1202,6 +1213,19 @@ func (w *world) stat(t *Ty, v *V, depth int, st *stats) {
 	case "map":
 		st.containers = true
 		st.nilCont = st.nilCont || v.Nil
+		if len(v.KV) > 0 {
+			if st.keyKinds == nil {
+				st.keyKinds = map[string]bool{}
+			}
+			kk := t.Key.K
+			switch {
+			case kk == "base":
+				kk = t.Key.B
+			case kk == "named":
+				kk = fmt.Sprintf("named-%s-%d", baseOfTy(t.Key), t.Key.N)
+			}
+			st.keyKinds[kk] = true
+		}
 		for _, kv := range v.KV {
 			w.stat(t.E, kv[1], depth+1, st)
 		}
@@ -1609,8 +1633,9 @@ func runCase(c *Case) (res lib.Result) {
 			return
 		}
 		if viaCP {
-			// a *checkpoint goes through checkPointer.set / get and a store, as in a run
-			got, n, setErr, getErr := compose.VerifC12CheckpointSetGet(in)
+			// a *checkpoint goes through checkPointer.set / get and a store, as in a run: the store
+			// holds an earlier checkpoint under the same id and receives another one under another id
+			got, n, setErr, getErr := compose.VerifC12CheckpointScenario(in)
 			o.Bytes = n
 			switch {
 			case setErr != nil:
@@ -1760,6 +1785,12 @@ func runCase(c *Case) (res lib.Result) {
 			res.Tags = append(res.Tags, "has:"+f.name)
 		}
 	}
+	var kks []string
+	for kk := range st.keyKinds {
+		kks = append(kks, "key:"+kk)
+	}
+	sort.Strings(kks)
+	res.Tags = append(res.Tags, kks...)
 	for _, m := range c.Malformed {
 		res.Tags = append(res.Tags, "malformed:"+m)
 	}
@@ -1823,8 +1854,10 @@ func (g *gen) basicType() *Ty {
 func (g *gen) keyType() *Ty {
 	r := g.r
 	switch r.Intn(10) {
-	case 0, 1, 2, 3, 4:
+	case 0, 1, 2, 3:
 		return &Ty{K: "base", B: "string"}
+	case 4:
+		return &Ty{K: "base", B: r.Pick([]string{"uint64", "int64", "int", "uint64", "uint"})}
 	case 5:
 		return &Ty{K: "named", N: []int{0, 1, 2, 3, 4, 5, 6, 7, 10, 11, 12, timeNamed}[r.Intn(12)]}
 	case 6:
@@ -1900,7 +1933,7 @@ func (g *gen) structType(depth int) *Ty {
 	r := g.r
 	switch {
 	case r.Chance(1, 6):
-		return &Ty{K: "struct", N: fixedBase + []int{0, 1, 1, 3, 5, 6, 6, 7}[r.Intn(8)]}
+		return &Ty{K: "struct", N: fixedBase + []int{0, 1, 1, 3, 5, 6, 6, 7, 8}[r.Intn(9)]}
 	case g.want("unregistered-struct", 1, 5):
 		g.bad("unregistered-struct")
 		return &Ty{K: "struct", N: fixedBase + 2}
@@ -2196,6 +2229,9 @@ func (g *gen) count(max int) int {
 		return 0
 	}
 	n := g.r.Intn(max + 1)
+	if g.r.Chance(1, 12) {
+		n = max + g.r.Intn(10) // now and then a longer container
+	}
 	if n > g.budget {
 		n = g.budget
 	}
@@ -2465,7 +2501,7 @@ func genCase(r *lib.Rng, tier string, i int) *Case {
 		return &Case{TopNil: true, Malformed: []string{"top-level-nil"}}
 	}
 	if i%61 == 7 {
-		return &Case{Probe: probes[r.Intn(len(probes))].name, Malformed: []string{"registry-probe"}}
+		return &Case{Probe: probes[(i/61+r.Intn(2)*7)%len(probes)].name, Malformed: []string{"registry-probe"}}
 	}
 	depth := 1 + r.Intn(g.maxDepth)
 	var t *Ty
